@@ -161,7 +161,8 @@ INVS = {
         "name": "P1", "version": "1", "base_url": "https://a.org/r",
         "objects": {
             "std": {"label": {"n": {"loc": "l1", "text": "T"}, "n*x": {"loc": "l2", "text": None}, "n.x": {"loc": "l3", "text": None}},
-                    "term": {"n": {"loc": "l4", "text": None}, "m": {"loc": "l5", "text": None}}},
+                    # (a display text that is spelled out and EQUALS the name stays a text in both representations)
+                    "term": {"n": {"loc": "l4", "text": None}, "m": {"loc": "l5", "text": "m"}}},
             "py": {"label": {"n": {"loc": "l6", "text": None}},
                    "func": {"n.x": {"loc": "l7", "text": "F"}, "nax": {"loc": "l8", "text": None}},
                    "function": {"n": {"loc": "l9", "text": None}}, "fun": {"n": {"loc": "l10", "text": None}},
@@ -369,6 +370,57 @@ class AcrossDocumentsSystem(System):
             viol.append(violation("link-sequence", {"clause": "link-across-documents"},
                                   f"{link} under inventory setting #{b} after a document with setting #{a}: {got!r}, parsed first in a fresh process: {fresh!r}"))
         return Obs(digest=(a, b, l, hash(got) % 10000), nontrivial=a != b, violations=viol, transitions=2, validated=1)
+
+
+class BigInventorySystem(System):
+    """an inventory that is read in several chunks, with non-ASCII names and texts: links into it resolve as into a small one"""
+
+    name = "links-big-inventory"
+    chunk = 1
+    description = "a 4000-entry inventory of CJK / accented names (decompressed in several chunks) x links to its first, middle and last entries and a missing one"
+
+    N = 4000
+
+    def row(self, i):
+        a, b, c = chr(0x4E00 + (i * 7919) % 20000), chr(0x3041 + (i * 31) % 80), chr(0xC0 + (i * 13) % 60)
+        return f"n{i}{a}{b}", f"d{i}.html#{c}{i}", f"T{c}{a}{b}{i} " + a * (i % 7)
+
+    def prepare(self, ctx):
+        self.dir = ctx.scratch / "c19big"
+        self.dir.mkdir(exist_ok=True)
+        lines = []
+        for i in range(self.N):
+            name, loc, text = self.row(i)
+            lines.append(f"{name} std:label -1 {loc} {text}")
+        self.path = self.dir / "big.inv"
+        self.path.write_bytes(make_v2("Big", "1", lines, level=1))
+
+    def bounds(self):
+        return {"entries": self.N}
+
+    def rule(self):
+        return "one case = one link; non-trivial = the entry exists"
+
+    def cases(self):
+        yield from [0, 1, self.N // 2, self.N - 2, self.N - 1, -1]
+
+    def run(self, i):
+        from docutils import nodes
+
+        from ..drivers import docutils_doctree
+
+        name = self.row(i)[0] if i >= 0 else "missing-entry"
+        doc, warn = docutils_doctree(f"PRE <inv:big#{name}> POST\n", {"myst_inventories": {"big": ["https://big.org/", str(self.path)]}})
+        refs = [r.get("refuri") for r in doc.findall(nodes.reference)]
+        viol = []
+        if i >= 0:
+            exp = "https://big.org/" + self.row(i)[1]
+            if refs != [exp] or "myst.i" in warn:
+                viol.append(violation("link", {"clause": "link", "form": "auto", "kind": "big-inventory"},
+                                      f"<inv:big#{name}>: references {refs}, expected [{exp!r}]; warnings {warn.strip()[:300]!r}"))
+        elif refs or "myst.iref_missing" not in warn:
+            viol.append(violation("link", {"clause": "link", "form": "auto", "kind": "big-inventory-missing"}, f"missing entry: references {refs}, warnings {warn.strip()[:300]!r}"))
+        return Obs(digest=(i, tuple(refs)), nontrivial=i >= 0, violations=viol)
 
 
 # ------------------------------------------------------------------------------------------------
@@ -599,7 +651,7 @@ class MultiLinkSystem(LinkSystem):
 
 def systems(tier):
     return [PairSystem(tier), PairSystem(tier, "pairs-braces", "a2*{},"), CacheSystem(tier), FilterSystem(tier), CliSystem(tier), LinkSystem(tier), MultiLinkSystem(tier),
-            AcrossDocumentsSystem(tier)]
+            AcrossDocumentsSystem(tier), BigInventorySystem(tier)]
 
 
 def vacuity(results):
